@@ -212,7 +212,7 @@ Proof.
         by (cbn [app]; rewrite <- app_assoc; reflexivity).
       assert (Hpl : length (36 :: P ++ [CR; LF]) = (length P + 3)%nat) by (cbn [length]; rewrite app_length; cbn [length]; lia).
       rewrite Heq. rewrite app_length, Hpl, app_length. cbn [length].
-      destruct (Nat.ltb_spec (length P + 3 + (length s + S (S (length rest)))) (length P + 3 + length s + 2)); [lia|].
+      destruct (Z.ltb_spec (Z.of_nat (length P + 3 + (length s + S (S (length rest))))) (Z.of_nat (length P + 3) + Z.of_nat (length s) + 2)); [lia|].
       rewrite <- Hpl, skipn_exact, firstn_exact, Hu, Hpl. reflexivity.
     + destruct f; [lia|]. cbn [serialize app parse].
       change (36 =? 43) with false. change (36 =? 45) with false. change (36 =? 58) with false. change (36 =? 36) with true.
